@@ -18,7 +18,8 @@ RULE = ('texts: (a) ALL strings up to length 8 (quick; 87,381 strings) / 10 (tho
         'compress_code/decompress_code and get_bytes_from_code/get_code_from_bytes; independent stream parser '
         '(block length 3..17, 1 <= offset <= bytes produced, stream consumed exactly); reference bytewise '
         'decoder. Non-trivial = the stream has >= 1 block and >= 1 escaped literal, or the case is from '
-        '(c)/(d)/(f); distinct by text/stream.')
+        '(c)/(d)/(f); distinct by text/stream.'
+        ' Buffers returned by compress_code/get_bytes_from_code are overwritten by the harness once copied and the same text is compressed again, so results that share storage with earlier results show up as wrong output.')
 ASSUMPTIONS = ['texts containing NUL are outside the domain (the code area is NUL-terminated/stripped text) and are '
                'not generated; texts that themselves end with the literal 0.1.7 compatibility suffix are excluded '
                '(indistinguishable from an injected suffix); both are counted',
